@@ -132,6 +132,7 @@ impl Workload for C18 {
         format!("each input string is given to all {} parser entry points under catch_unwind: all {} strings of length <= 3 over the 14-character syntax alphabet, 8 long inputs of 10-400 kilobytes (deep nesting of brackets, parentheses, not(...), complex terms; flat lists, disjunctions, one huge atom) parsed on a thread with the default 8 MB main-thread stack, {} deeply nested texts (each of 8 opener kinds - parentheses, brackets, complex terms, not(...), list and argument prefixes - at every depth that fits into 160 characters, then random mixtures of kinds, cores and unbalanced variants), {} canonical texts (terms, goals, rules, argument lists), {} mutations of such texts (1-4 edits), {} random strings over the syntax alphabet up to 160 characters; non-trivial when at least one entry point returned Ok or the input has >= 2 syntax characters; distinct by input string",
                 ENTRY.len(), self.short.len(), self.n_nest, self.n_canon, self.n_mut, self.n_rand)
     }
+    fn slow_case(&self, idx: u64) -> bool { idx < DEEP.len() as u64 }
     fn exhaustive_part(&self) -> Option<String> { Some(format!("all {} strings of length <= 3 over ()[],;.|\\$\"a-+", self.short.len())) }
     fn describe(&mut self, idx: u64) -> String {
         if idx < DEEP.len() as u64 { return json::obj(&[("input_spec", json::esc(&deep_spec(idx as usize))), ("kind", json::esc("long"))]); }
